@@ -82,12 +82,20 @@ ANCHORS = [
     "gemseo.utils.pickle:from_pickle",
 ]
 MIN_COUNTERS = {
-    "quick": {"round_trips": 150, "static_views_compared": 150, "behaviour_comparisons": 400,
-              "jacobian_comparisons": 100, "identity_walks": 150, "independence_checks": 300,
-              "counter_checks": 100, "purity_checks": 150, "moment_failed_cases": 5, "scenario_runs_compared": 6},
-    "thorough": {"round_trips": 800, "static_views_compared": 800, "behaviour_comparisons": 2500,
-                 "jacobian_comparisons": 600, "identity_walks": 800, "independence_checks": 1600,
-                 "counter_checks": 500, "purity_checks": 800, "moment_failed_cases": 30, "scenario_runs_compared": 30},
+    "quick": {"round_trips": 240, "round_trips_process": 8, "static_views_compared": 240, "behaviour_comparisons": 1200,
+              "jacobian_comparisons": 500, "cached_input_replays": 100, "identity_walks": 230, "independence_checks": 1500,
+              "counter_checks": 440, "counter_checks_with_nonzero_counters": 130, "purity_checks": 230,
+              "moment_failed_cases": 10, "scenario_runs_compared": 9, "round_trips_kind_discipline": 180,
+              "round_trips_kind_scenario": 9, "round_trips_kind_function": 22, "round_trips_kind_space": 7,
+              "round_trips_kind_problem": 8, "round_trips_kind_grammar": 14, "round_trips_kind_cache": 4,
+              "factory_classes_covered": 60},
+    "thorough": {"round_trips": 1350, "round_trips_process": 90, "static_views_compared": 1350,
+                 "behaviour_comparisons": 6600, "jacobian_comparisons": 3000, "cached_input_replays": 600,
+                 "identity_walks": 1250, "independence_checks": 8500, "counter_checks": 2500,
+                 "counter_checks_with_nonzero_counters": 750, "purity_checks": 1250, "moment_failed_cases": 40,
+                 "scenario_runs_compared": 40, "round_trips_kind_discipline": 1050, "round_trips_kind_scenario": 44,
+                 "round_trips_kind_function": 100, "round_trips_kind_space": 32, "round_trips_kind_problem": 31,
+                 "round_trips_kind_grammar": 64, "round_trips_kind_cache": 16, "factory_classes_covered": 60},
 }
 SHARD_TIMEOUT = {"quick": 3000, "thorough": 14000}  # generous: only a guard against hanging (the machine may be shared)
 
